@@ -145,7 +145,7 @@ fn parser_tokens() -> Vec<(Vec<u8>, Option<Rgb>, bool)> {
     // (bytes, colour the foreground (true) / background (false) must resolve to afterwards, is_foreground)
     // OSC 4 tokens redefine a palette slot (no colour expectation); slots 16.. are where inserted colours land
     let mut v: Vec<(Vec<u8>, Option<Rgb>, bool)> = Vec::new();
-    for slot in [16u32, 17, 1] {
+    for slot in [16u32, 17, 1, 255] {
         for c in [(9u8, 8u8, 7u8), NEW1] {
             v.push((format!("\x1b]4;{slot};rgb:{:02x}/{:02x}/{:02x}\x1b\\", c.0, c.1, c.2).into_bytes(), None, true));
         }
